@@ -105,7 +105,11 @@ InitState(k, b, h) ==
    termBy |-> NoReq, doneBy |-> NoReq, killBy |-> NoReq, closeBy |-> NoReq, skDone |-> FALSE, killAt |-> 0, rpc |-> "nil", lpc |-> "none", dev |-> "none",
    nreq |-> 0, cnt |-> [r \in Requests |-> 0], rst |-> "none", rfin |-> [final |-> "none", vol |-> FALSE]]
 
-BehsOf(k) == IF k = "ctl" THEN Behs \cap {"sleep", "ignore", "fork", "exit0", "exit3", "noready", "stuck"}
+(* controllable, conduct of the device once a Kill has walked it to DONE: done0 exits 0 at once, done3 exits 3 a
+   moment later (crash in its shutdown path), donesig dies by a signal a moment later; sleep / ignore / fork outlive
+   the grace period and have to be signalled; nodone refuses EXIT (never reaches DONE) and exits 3 on TERM *)
+BehsOf(k) == IF k = "ctl" THEN Behs \cap {"sleep", "ignore", "fork", "exit0", "exit3", "noready", "stuck",
+                                          "done0", "done3", "donesig", "nodone"}
                           ELSE Behs \cap {"sleep", "ignore", "fork", "exit0", "exit3", "crash"}
 
 (* ----- the instant of the child's life, from what has been observable so far ----- *)
@@ -358,22 +362,33 @@ DoKBody(s, i) ==
                   \* a child told to exit may still answer; two Kills walking the device at once trip over each other
                   maybe == MaybeAlive(s) /\ s.dev # "INIT"
                   other == \E j \in 1..Len(s.hs) : j # i /\ s.hs[j].r = "Kill"
-              IN IF Listening(s) /\ s.dev # "INIT"
+              IN IF Listening(s) /\ s.beh = "nodone"
+                   THEN {[broke EXCEPT !.dev = "STANDBY"]}         \* STOP / RESET obeyed, EXIT refused
+                 ELSE IF Listening(s) /\ s.dev # "INIT"
                    THEN IF other THEN {walked, [broke EXCEPT !.dev = "DONE"]} ELSE {walked}
                    ELSE IF maybe THEN {walked, broke} ELSE {broke}
     ELSE {}
 IsK(s, i, pc) == i \in 1..Len(s.hs) /\ s.hs[i].r = "Kill" /\ s.hs[i].pc = pc /\ s.kind = "ctl" /\ Ok(s)
-(* ... t.rpc.Close(); t.rpc = nil; pendingFinalTaskStateCh <- FINISHED (DONE reached) | KILLED *)
+(* ... t.rpc.Close(); t.rpc = nil *)
 DoKClose(s, i) ==
-  IF IsK(s, i, "close")
-    THEN IF s.pend # "none" THEN {[s EXCEPT !.rpc = "nil", !.closeBy = ReqOf(s, i), !.hs[i].pc = "hung"]}
-         ELSE {[s EXCEPT !.rpc = "nil", !.closeBy = ReqOf(s, i), !.pend = IF s.hs[i].reached = "DONE" THEN "FINISHED" ELSE "KILLED",
-                         !.hs[i].pc = "term"]}
+  IF IsK(s, i, "close") THEN {[s EXCEPT !.rpc = "nil", !.closeBy = ReqOf(s, i), !.hs[i].pc = "push"]} ELSE {}
+(* ... pendingFinalTaskStateCh <- FINISHED (DONE reached) | KILLED.  The final state is pushed BEFORE the grace
+   period: whatever the device does from here on, the reaper finds it.  (The send waits while the slot is taken.) *)
+DoKPush(s, i) ==
+  IF IsK(s, i, "push") /\ s.pend = "none"
+    THEN {[s EXCEPT !.pend = IF s.hs[i].reached = "DONE" THEN "FINISHED" ELSE "KILLED",
+                    !.hs[i].pc = IF s.hs[i].reached = "DONE" THEN "grace" ELSE "term"]}
     ELSE {}
-(* ... a send that found the slot taken goes on once the reaper has emptied it *)
-DoKUnblock(s, i) ==
-  IF IsK(s, i, "hung") /\ s.pend = "none"
-    THEN {[s EXCEPT !.pend = IF s.hs[i].reached = "DONE" THEN "FINISHED" ELSE "KILLED", !.hs[i].pc = "term"]}
+(* ... DONE reached: time.Sleep(DONE_TIMEOUT) - the device is given 1 s to leave on its own *)
+DoKGrace(s, i) ==
+  IF IsK(s, i, "grace") THEN {[s EXCEPT !.hs[i].pc = "term"]} ELSE {}
+(* the device, having reached DONE, goes away by itself: at once (done0), or a moment later - assumed to be
+   within the grace period, i.e. later than the few statements between the EXIT reply and the push *)
+DoDoneExit(s) ==
+  IF s.kind = "ctl" /\ s.dev = "DONE" /\ s.child = "running" /\ Ok(s)
+     /\ (\/ s.beh = "done0"
+         \/ s.beh \in {"done3", "donesig"} /\ \E j \in 1..Len(s.hs) : s.hs[j].r = "Kill" /\ s.hs[j].pc = "grace")
+    THEN {[s EXCEPT !.child = "exiting", !.how = CASE s.beh = "done0" -> "e0" [] s.beh = "done3" -> "e3" [] OTHER -> "sig"]}
     ELSE {}
 (* ... pidExists(pid) ? doTermIntKill(pid) : return.  pid is the device's own pid (GetState), not the group *)
 Obeys(s) == s.beh # "ignore"
@@ -381,7 +396,7 @@ DoKTerm(s, i) ==
   IF IsK(s, i, "term")
     THEN IF s.child = "running"
            THEN {[s EXCEPT !.hs[i].pc = "int", !.child = IF Obeys(s) THEN "exiting" ELSE @,
-                           !.how = IF Obeys(s) THEN "e0" ELSE @]}
+                           !.how = IF Obeys(s) THEN (IF s.beh = "nodone" THEN "e3" ELSE "e0") ELSE @]}
            ELSE {[s EXCEPT !.hs[i].pc = "end"]}
     ELSE {}
 DoKInt(s, i) ==
@@ -402,9 +417,9 @@ DoKEnd(s, i) ==
 HIdx(s) == 1..Len(s.hs)
 Succ(s) ==
   DoLaunch(s) \cup UNION {DoReq(s, r) : r \in Reqs} \cup DoRelease(s) \cup DoProc(s) \cup DoTimer(s)
-  \cup DoReaperStart(s) \cup DoWaitRet(s) \cup DoReap(s) \cup DoLDial(s) \cup DoLDialTimeout(s) \cup DoLPoll(s) \cup DoLPollTimeout(s) \cup DoLWaitRet(s) \cup DoLWait(s)
+  \cup DoReaperStart(s) \cup DoWaitRet(s) \cup DoReap(s) \cup DoLDial(s) \cup DoLDialTimeout(s) \cup DoLPoll(s) \cup DoLPollTimeout(s) \cup DoLWaitRet(s) \cup DoLWait(s) \cup DoDoneExit(s)
   \cup UNION {DoNoopBody(s, i) \cup DoRespond(s, i) \cup DoStartBody(s, i) \cup DoStopBody(s, i) \cup DoStopPush(s, i) \cup DoStopKill(s, i) \cup DoKillBodyBasic(s, i)
-              \cup DoKUnblock(s, i) \cup DoKillSend(s, i) \cup DoTransBody(s, i) \cup DoTransCommit(s, i) \cup DoKBody(s, i) \cup DoKClose(s, i) \cup DoKTerm(s, i) \cup DoKInt(s, i)
+              \cup DoKPush(s, i) \cup DoKGrace(s, i) \cup DoKillSend(s, i) \cup DoTransBody(s, i) \cup DoTransCommit(s, i) \cup DoKBody(s, i) \cup DoKClose(s, i) \cup DoKTerm(s, i) \cup DoKInt(s, i)
               \cup DoKKill9(s, i) \cup DoKEnd(s, i) : i \in HIdx(s)}
 
 Init == \E k \in Kinds : \E b \in BehsOf(k) : \E h \in Holds :
@@ -429,7 +444,9 @@ Respond(i) == \E t \in DoRespond(S, i) : Set(t)
 StartBody(i) == \E t \in DoStartBody(S, i) : Set(t)
 StopBody(i) == \E t \in DoStopBody(S, i) : Set(t)
 StopPush(i) == \E t \in DoStopPush(S, i) : Set(t)
-KUnblock(i) == \E t \in DoKUnblock(S, i) : Set(t)
+KPush(i) == \E t \in DoKPush(S, i) : Set(t)
+KGrace(i) == \E t \in DoKGrace(S, i) : Set(t)
+DoneExit == \E t \in DoDoneExit(S) : Set(t)
 StopKill(i) == \E t \in DoStopKill(S, i) : Set(t)
 KillBodyBasic(i) == \E t \in DoKillBodyBasic(S, i) : Set(t)
 KillSend(i) == \E t \in DoKillSend(S, i) : Set(t)
@@ -444,8 +461,8 @@ KEnd(i) == \E t \in DoKEnd(S, i) : Set(t)
 
 Next ==
   \/ Launch \/ (\E r \in Reqs : Req(r)) \/ Release \/ Proc \/ Timer \/ ReaperStart \/ WaitRet \/ Reap
-  \/ LDial \/ LDialTimeout \/ LPoll \/ LPollTimeout \/ LWaitRet \/ LWait
-  \/ \E i \in 1..MaxReq : NoopBody(i) \/ Respond(i) \/ StartBody(i) \/ StopBody(i) \/ StopPush(i) \/ KUnblock(i) \/ StopKill(i) \/ KillBodyBasic(i) \/ KillSend(i)
+  \/ LDial \/ LDialTimeout \/ LPoll \/ LPollTimeout \/ LWaitRet \/ LWait \/ DoneExit
+  \/ \E i \in 1..MaxReq : NoopBody(i) \/ Respond(i) \/ StartBody(i) \/ StopBody(i) \/ StopPush(i) \/ KPush(i) \/ KGrace(i) \/ StopKill(i) \/ KillBodyBasic(i) \/ KillSend(i)
                           \/ TransBody(i) \/ TransCommit(i) \/ KBody(i) \/ KClose(i) \/ KTerm(i) \/ KInt(i) \/ KKill9(i) \/ KEnd(i)
 
 Spec == Init /\ [][Next]_vars
@@ -483,5 +500,5 @@ NoSurvivorsX == NoSurvivors \/ Class("NoSurvivors", doneBy) \in Known
 ExecutorSurvivesX == ExecutorSurvives \/ Class("ExecutorSurvives", panBy) \in Known
 
 (* a handler goroutine blocked for ever on the one-slot channel (observation, not part of the property) *)
-NoStuckHandler == \A i \in 1..Len(hs) : ~(hs[i].pc \in {"hung", "push"} /\ pend # "none" /\ child \in {"waited", "reaped"})
+NoStuckHandler == \A i \in 1..Len(hs) : ~(hs[i].pc = "push" /\ pend # "none" /\ child \in {"waited", "reaped"})
 =============================================================================
